@@ -53,7 +53,7 @@ def opaque_expr(g, name, typ=None, not_ctors=(LoopIR.Const,)):
     typ = typ or T.index
     v = g.int("ev_" + name)
     if g.concrete:
-        if not any(issubclass(LoopIR.Const, n) for n in not_ctors):
+        if not any(issubclass(LoopIR.Const, n) for n in not_ctors) and g.ctx.rng.random() < 0.5:
             return LoopIR.Const(v, typ, SRC)
         s = Sym(name)
         g.ghost.setdefault("rho", {})[id(s)] = (s, v)
